@@ -293,7 +293,10 @@ class Run:
                         o.replay_payload["playback_test"] = t
                         break
                 if srcs and o.reproduced is None:
-                    o.reproduced = False
+                    # reproduced stays None when the native replay could not be executed at all (build error,
+                    # timeout); False only when every generated test ran and passed
+                    if all(x["reproduced"] is False for x in outs):
+                        o.reproduced = False
                     o.replay_payload["playback_test"] = srcs[0]
                 o.replay_payload["native_replay"] = outs
 
